@@ -28,7 +28,7 @@ Definition state_at (i : nat) (x : xst) : option Z := nth i (f_st x) None.
 (* NodeTypeMetaData of the two kinds, in the vocabulary of Engine.ncfg *)
 Definition source_cfg : ncfg := mkCfg false false true 0 [].
 Definition sink_cfg (p s : nat) : ncfg :=
-  mkCfg false false false 1 [mkIn p true true; mkIn s false false].
+  mkCfg false false false 1 [mkIn p true true None false; mkIn s false false None false].
 
 Definition init_of (k : fkind) : option Z := match k with FSource i => i | _ => None end.
 
